@@ -59,6 +59,19 @@ static void check_repro(Out& out, int only_n = 0) {
             bool sameg = g1.size() == g2.size() && Y1.cols() == Y2.cols() && (g1.size() == 0 || std::memcmp(g1.data(), g2.data(), 16 * g1.size()) == 0) && (Y1.size() == 0 || std::memcmp(Y1.data(), Y2.data(), 16 * Y1.size()) == 0);
             if (!sameg) out.fail("rng-not-reproducible", "two identical default-initialised GenEigsSolver runs in one process differ (n=" + str(n) + ", breakdown matrix)", "{\"op\":\"repro_gen\",\"s\":" + str(n) + "}");
             out.count("oracle_reproducibility", 2);
+            // the SAME solver object, default init() twice: the second default start vector must be the first one again
+            // (the generator of init() is seeded per call, not kept across calls)
+            {   Spectra::DenseSymMatProd<double> op(A); Spectra::SymEigsSolver<Spectra::DenseSymMatProd<double>> e(op, 3, 8);
+                e.init(); e.compute(Spectra::SortRule::LargestAlge, 50, 1e-10); Eigen::VectorXd a1 = e.eigenvalues(); Eigen::MatrixXd Z1 = e.eigenvectors(); long it1 = e.num_iterations(), op1 = e.num_operations();
+                e.init(); e.compute(Spectra::SortRule::LargestAlge, 50, 1e-10); Eigen::VectorXd a2 = e.eigenvalues(); Eigen::MatrixXd Z2 = e.eigenvectors(); long it2 = e.num_iterations(), op2 = e.num_operations();
+                bool same2 = it1 == it2 && op1 == op2 && a1.size() == a2.size() && Z1.cols() == Z2.cols() && (a1.size() == 0 || std::memcmp(a1.data(), a2.data(), 8 * a1.size()) == 0) && (Z1.size() == 0 || std::memcmp(Z1.data(), Z2.data(), 8 * Z1.size()) == 0);
+                if (!same2) out.fail("rng-not-reproducible", "init(); compute() twice on ONE SymEigsSolver object differ (n=" + str(n) + "; iterations " + str(it1) + " vs " + str(it2) + ", operations " + str(op1) + " vs " + str(op2) + "): the default start vector depends on earlier calls", "{\"op\":\"repro_sym\",\"s\":" + str(n) + "}");
+                Spectra::DenseGenMatProd<double> gop(A); Spectra::GenEigsSolver<Spectra::DenseGenMatProd<double>> ge(gop, 2, 7);
+                ge.init(); ge.compute(Spectra::SortRule::LargestMagn, 50, 1e-10); Eigen::VectorXcd b1 = ge.eigenvalues(); long git1 = ge.num_iterations(), gop1 = ge.num_operations();
+                ge.init(); ge.compute(Spectra::SortRule::LargestMagn, 50, 1e-10); Eigen::VectorXcd b2 = ge.eigenvalues(); long git2 = ge.num_iterations(), gop2 = ge.num_operations();
+                bool sameg2 = git1 == git2 && gop1 == gop2 && b1.size() == b2.size() && (b1.size() == 0 || std::memcmp(b1.data(), b2.data(), 16 * b1.size()) == 0);
+                if (!sameg2) out.fail("rng-not-reproducible", "init(); compute() twice on ONE GenEigsSolver object differ (n=" + str(n) + ")", "{\"op\":\"repro_gen\",\"s\":" + str(n) + "}");
+                out.count("oracle_reproducibility_same_object", 2); }
         }
     }
 }
@@ -104,6 +117,37 @@ int main(int argc, char** argv) {
         if (dbits(v) != dbits(w)) out.fail("rng-seed-norm", "SimpleRandom(" + str(sd) + ") first draw differs from draw at documented normalised state", "{\"op\":\"rand_seed\",\"s\":" + str(sd) + "}");
         if (!(v >= -0.5 && v <= 0.5)) out.fail("rng-draw", "first draw of seed " + str(sd) + " out of range", "{\"op\":\"rand_seed\",\"s\":" + str(sd) + "}");
         out.count("seeds");
+    }
+    // ---- the generator OBJECT as a state machine: every public call advances the one state by exactly the draws it hands out
+    // (random(), random_vec(Vector&), random_vec(len) mixed on one object must be ONE Park-Miller stream) ----
+    {
+        Rng r2(a.seed, 1919); int nseq = a.thorough() ? 20000 : 2000;
+        for (int k = 0; k < nseq; k++) {
+            unsigned long sd = (k % 4 == 0) ? 0UL : (unsigned long) (2 * (long) r2.below(1L << 20) + 123 * (long) r2.below(5));
+            int l1 = (int) r2.below(6), l2 = (int) r2.below(6);
+            Spectra::SimpleRandom<double> g(sd);
+            std::vector<double> got;
+            Eigen::VectorXd v(l1); g.random_vec(v); for (int i = 0; i < l1; i++) got.push_back(v[i]);
+            got.push_back(g.random());
+            Eigen::VectorXd w = g.random_vec((Eigen::Index) l2); for (int i = 0; i < l2; i++) got.push_back(w[i]);
+            got.push_back(g.random());
+            // oracle: one stream from the documented normalised state
+            long st = (long) (sd ? (sd & 2147483647UL) : 1); bool ok = true;
+            for (double x : got) { double e = Spectra::RandomScalar<double>::run(st); if (dbits(e) != dbits(x)) ok = false; }
+            if (!ok) out.fail("rng-object-stream", "SimpleRandom(" + str(sd) + "): random_vec(v[" + str(l1) + "]); random(); random_vec(" + str(l2) + "); random() is not one Park-Miller stream (a call did not advance the state by the draws it handed out)", "{\"op\":\"rand_seq\",\"s\":" + str(sd) + "}");
+            std::string resp; for (double x : got) { if (!resp.empty()) resp += " "; resp += str(dbits(x)); }
+            out.corr("rand_seq " + str(sd) + " " + str(l1) + " " + str(l2), resp);
+            out.count("object_sequences");
+        }
+        // complex generator object: 2 real draws per element
+        for (int k = 0; k < 200; k++) {
+            unsigned long sd = (unsigned long) (2 * (long) r2.below(1L << 20) + 123 * (long) r2.below(5));
+            Spectra::SimpleRandom<std::complex<double>> g(sd); Eigen::VectorXcd v(3); g.random_vec(v); std::complex<double> z = g.random();
+            long st = (long) (sd ? (sd & 2147483647UL) : 1); bool ok = true;
+            for (int i = 0; i < 4; i++) { double re = Spectra::RandomScalar<double>::run(st), im = Spectra::RandomScalar<double>::run(st); std::complex<double> c = i < 3 ? v[i] : z; if (dbits(c.real()) != dbits(re) || dbits(c.imag()) != dbits(im)) ok = false; }
+            if (!ok) out.fail("rng-object-stream", "SimpleRandom<complex>(" + str(sd) + "): random_vec(v[3]); random() is not one stream of (re, im) pairs", "{\"op\":\"rand_seq\",\"s\":" + str(sd) + "}");
+            out.count("object_sequences_complex");
+        }
     }
     check_repro(out);
     // model correspondence for seed normalisation (model side: Gen.Rand.seed_norm), sampled
